@@ -26,6 +26,7 @@ import LnnVerif.Lemmas.Basic
 import Mathlib.Algebra.Order.Field.Rat
 import Mathlib.Algebra.Order.Archimedean.Basic
 import Mathlib.Tactic.NormNum
+import LnnVerif.Lemmas.PendLemmas
 
 set_option linter.unusedSectionVars false
 
@@ -403,5 +404,23 @@ theorem C06_N_is_not_enough :
   · simp [infer, queryStop, sweep, runPass, passSteps, Call.steps, callUp, callDown, runSteps,
       runStep, stepUp, stepDown, c06xKB, c06xCfg, c06xS, aggregate, clamp01, negB]
     norm_num
+
+/-! ### the executed first-order loop -/
+
+section pend
+
+variable {ι : Type} [DecidableEq ι] {α : Type} [Field α] [LinearOrder α]
+
+/-- `pInfer` (what the driver runs) is `fInfer` on every knowledge base without a partially
+quantified operand: same state, sweeps, total and convergence flag -/
+theorem C06_pInfer_is_fInfer {kb : FKB ι α} (h : NoQuantParent kb) (nodes : List ι)
+    (up down : List (FCall ι)) (eps : α) (fuel : Nat) (s : FState ι α) :
+    (pInfer kb nodes up down eps fuel ⟨s, []⟩).state = ⟨(fInfer kb nodes up down eps fuel s).state, []⟩ ∧
+    (pInfer kb nodes up down eps fuel ⟨s, []⟩).steps = (fInfer kb nodes up down eps fuel s).steps ∧
+    (pInfer kb nodes up down eps fuel ⟨s, []⟩).total = (fInfer kb nodes up down eps fuel s).total ∧
+    (pInfer kb nodes up down eps fuel ⟨s, []⟩).converged = (fInfer kb nodes up down eps fuel s).converged :=
+  pInfer_of_noParent h nodes up down eps fuel s
+
+end pend
 
 end LNN
